@@ -250,3 +250,158 @@ theorem C07_entry_content (cfg : WrapCfg) (e e' : DNode) (h : entryWrap cfg none
           exact congrArg _ hvals
 
 end Deb822Verif.Props.C07
+
+namespace Deb822Verif.Props.C07
+open Deb822Verif Deb Node
+
+/-! ### paragraph level: every field kept, in the original or the requested order -/
+
+def isEntryNode (c : DNode) : Bool := c.isNode && c.kind == .ENTRY
+def isTriviaNode (c : DNode) : Bool := c.kind == .ERROR || c.kind == .COMMENT
+
+/-- (key, value) of an entry, when it has a key -/
+def kv (e : DNode) : Option (Str × Str) := (entryKey e).map fun k => (k, entryValue e)
+
+theorem groupBy_units (cs cur : List DNode) :
+    (groupBy isEntryNode isTriviaNode cs cur).1.map (·.2) = cs.filter isEntryNode := by
+  induction cs generalizing cur with
+  | nil => simp [groupBy]
+  | cons c cs ih =>
+    simp only [groupBy]
+    by_cases h : isEntryNode c = true
+    · simp [h, ih]
+    · have h' : isEntryNode c = false := by simpa using h
+      simp only [h', Bool.false_eq_true, ↓reduceIte, List.filter_cons]
+      split <;> exact ih _
+
+theorem mapM'_map {α β} (f : α → Option β) (l : List α) (r : List β) (h : mapM' f l = some r) :
+    l.map f = r.map some := by
+  induction l generalizing r with
+  | nil => simp [mapM'] at h; subst h; rfl
+  | cons a as ih =>
+    simp only [mapM'] at h
+    cases ha : f a with
+    | none => simp [ha] at h
+    | some b =>
+      cases hs : mapM' f as with
+      | none => simp [ha, hs] at h
+      | some bs =>
+        simp [ha, hs] at h; subst h
+        simp [ha, ih bs hs]
+
+theorem entryWrap_isEntry (cfg fmt e e') (h : entryWrap cfg fmt e = some e') : isEntryNode e' = true := by
+  unfold entryWrap at h
+  repeat' split at h
+  all_goals first
+    | (simp at h; done)
+    | (simp at h; subst h; simp [isEntryNode, Node.isNode, Node.kind])
+
+theorem withNewlines_no_entry (ts : List Tok) : (withNewlines ts).filter isEntryNode = [] := by
+  induction ts with
+  | nil => rfl
+  | cons t ts ih =>
+    simp only [withNewlines, List.filter_append, ih, List.append_nil]
+    split <;> simp [isEntryNode, Node.isNode]
+
+/-- the fields of a reformatted paragraph, without a value formatter: exactly the fields of the
+    original — in the original order when no order is requested, otherwise a permutation of them
+    (and `List.mergeSort` output, i.e. sorted for a total preorder) -/
+theorem C07_para_fields (cfg : WrapCfg) (le : Option (DNode → DNode → Bool)) (p p' : DNode)
+    (h : paragraphWrap cfg le none p = some p') :
+    ∃ es' : List DNode,
+      (p'.children.filter isEntryNode) = es'
+      ∧ (match le with
+         | none => es'.map kv = (p.children.filter isEntryNode).map kv
+         | some f => ∃ ws : List (List DNode × DNode),
+             ws.map (fun x => kv x.2) = (p.children.filter isEntryNode).map kv
+             ∧ es' = (ws.mergeSort fun a b => f a.2 b.2).map (·.2)) := by
+  unfold paragraphWrap at h
+  simp only at h
+  split at h
+  · simp at h
+  · rename_i wrapped hw
+    split at h
+    · rename_i groups trailing hg ht
+      simp only [Option.some.injEq] at h
+      subst h
+      -- the wrapped entries keep key and value
+      have hmap := mapM'_map _ _ _ hw
+      have hkv : wrapped.map (fun x => kv x.2) =
+          (p.children.filter isEntryNode).map kv := by
+        rw [← groupBy_units p.children []]
+        have : ∀ (l : List (List DNode × DNode)) (r : List (List DNode × DNode)),
+            l.map (fun pe => match entryWrap cfg none pe.2 with
+              | some e' => some (pe.1, e') | none => none) = r.map some →
+            r.map (fun x => kv x.2) = (l.map (·.2)).map kv := by
+          intro l
+          induction l with
+          | nil => intro r hr; cases r <;> simp_all
+          | cons a l ih =>
+            intro r hr
+            cases r with
+            | nil => simp at hr
+            | cons b r =>
+              simp only [List.map_cons, List.cons.injEq] at hr ⊢
+              obtain ⟨h1, h2⟩ := hr
+              refine ⟨?_, ih r h2⟩
+              split at h1
+              · rename_i e' he
+                simp at h1; subst h1
+                have := C07_entry_content cfg a.2 e' he
+                simp [kv, this.1, this.2]
+              · simp at h1
+        exact this _ _ hmap
+      -- the entry nodes of the result are the (sorted) wrapped entries
+      have hres : ∀ (es : List (List DNode × DNode)) (gs : List (List DNode)),
+          (∀ x ∈ es, isEntryNode x.2 = true) →
+          mapM' (fun (pe : List DNode × DNode) =>
+            match allTokens pe.1 with
+            | some pre => some (withNewlines pre ++ [pe.2])
+            | none => none) es = some gs →
+          gs.flatten.filter isEntryNode = es.map (·.2) := by
+        intro es
+        induction es with
+        | nil => intro gs _ hgs; simp [mapM'] at hgs; subst hgs; rfl
+        | cons a es ih =>
+          intro gs hall hgs
+          simp only [mapM'] at hgs
+          split at hgs
+          · rename_i b bs hb hbs
+            simp at hgs; subst hgs
+            split at hb
+            · rename_i pre hpre
+              simp at hb; subst hb
+              simp only [List.flatten_cons, List.filter_append, withNewlines_no_entry,
+                List.nil_append, List.filter_cons, hall a (by simp), ↓reduceIte, List.filter_nil,
+                List.map_cons, List.cons_append, List.cons.injEq, true_and]
+              exact ih bs (fun x hx => hall x (by simp [hx])) hbs
+            · simp at hb
+          · simp at hgs
+      have hwall : ∀ x ∈ wrapped, isEntryNode x.2 = true := by
+        intro x hx
+        have hx' : some x ∈ wrapped.map some := List.mem_map_of_mem hx
+        rw [← hmap] at hx'
+        simp only [List.mem_map] at hx'
+        obtain ⟨pe, _, hpe⟩ := hx'
+        split at hpe
+        · rename_i e' he
+          simp at hpe; subst hpe
+          exact entryWrap_isEntry _ _ _ _ he
+        · simp at hpe
+      refine ⟨_, rfl, ?_⟩
+      have hchildren : ∀ (k : Kind) (cs : List DNode), (Node.node k cs).children = cs := fun _ _ => rfl
+      simp only [hchildren, List.filter_append, withNewlines_no_entry, List.append_nil]
+      cases le with
+      | none =>
+        simp only at hg ⊢
+        rw [hres wrapped groups hwall hg]
+        simpa [Function.comp_def] using hkv
+      | some f =>
+        simp only at hg ⊢
+        refine ⟨wrapped, hkv, ?_⟩
+        apply hres _ _ _ hg
+        intro x hx
+        exact hwall x ((List.mergeSort_perm wrapped _).subset hx)
+    · simp at h
+
+end Deb822Verif.Props.C07
